@@ -203,6 +203,30 @@ CLAIMED = {
         design="9/C19"),
 }
 
+# layers added in the second session (appended to the claims above)
+LARGE = " The oracle comparison is repeated on inputs one to two orders of magnitude larger than the models' (size thresholds)."
+EXTRA = {
+    "C01": " The hook events of every distinct DWT1DForward / DWTForward call the repository's own tests make are validated by the "
+           "stage-level trace specifications; MC_Helpers (mypad, roll, mode tables, prep_filt_*, symm_pad as total functions) is "
+           "replayed into the helpers as a diagnostic layer." + LARGE,
+    "C02": LARGE, "C03": LARGE, "C04": LARGE, "C05": " Dot-product test on large inputs in the exact modes.", "C06": " Dot-product test on large inputs.",
+    "C08": " Wide inputs (17..147 channels, batch 5) and large images are compared channel by channel.",
+    "C09": " Finite differences are Richardson-extrapolated; wide / deep batches; the thorough tier sweeps all families x colour x bias x sizes.",
+    "C10": " The calls of the repository's own tests are validated by the trace specifications." + LARGE,
+    "C11": LARGE,
+    "C12": " The mask machine of DTCWT2 (skip_hps and include_scale as per-level sets, jointly) is enumerated by TLC and replayed.",
+    "C13": " Separate column / row filters (4-tuples of different lengths, pairs of wavelets against pywt.swt2)." + LARGE,
+    "C14": LARGE,
+    "C15": " Two exhaustive slices complement the sampled histories: every two-call sequence over the pool (history dependence on "
+           "colliding configurations / nearby sizes) and every single preemption of a call, before each of its torch-level "
+           "operations, by a complete call of another thread (races inside one stage).",
+    "C16": " spec/Ctor.tla (owned tensors, dtype, .to(), load_state_dict for all nine modules and every filter-argument form) is "
+           "replayed into the real constructors as a diagnostic layer.",
+    "C17": LARGE,
+    "C18": " Results of earlier loads are re-fingerprinted after all later loads (HeldStable; negative model SharedBuf).",
+    "C19": LARGE,
+}
+
 NOT_YET = "not yet built at this commit (work in progress; see DESIGN.md section 14 for the build order)"
 
 
@@ -221,7 +245,7 @@ def build():
                 "evidence_file": "evidence/%s.json" % pid,
                 "replay_cmd_template": "./check %s --replay {path}" % pid,
                 "engine": "tlc+harness",
-                "level_claimed": {"category": c.get("level", "model_checking"), "text": c["text"],
+                "level_claimed": {"category": c.get("level", "model_checking"), "text": c["text"] + EXTRA.get(pid, ""),
                                   "design_ref": "DESIGN.md section " + c["design"]},
                 "level_note": c["note"],
                 "technique": c["technique"],
